@@ -23,8 +23,8 @@ type c15Case struct {
 
 var c15EditKinds = []string{"EP", "EC", "EL"}
 var c15Policies = []string{"adv", "sub", "eq", "back", "zero"} // sub: the mtime advances by a millisecond only (same second, usually the same length)
-var c15Other = []string{"TP", "TC", "TL", "TS", "TB", "IP", "IC", "FP", "BP", "FC", "FL", "UP"} // F*: front-matter-only edit, BP: body-only edit (mtime advances)
-var c15Renders = []string{"R1", "R2", "R3", "R4", "R5", "R6", "R7"} // R7: Vue.Render of the page without any caller data // R5: Vue.RenderFragment of the page, R6: RenderString of a template that includes the component
+var c15Other = []string{"TP", "TC", "TL", "TS", "TB", "IP", "IC", "FP", "BP", "FC", "FL", "UP", "EN", "ES"} // F*: front-matter-only edit, BP: body-only edit (mtime advances)
+var c15Renders = []string{"R1", "R2", "R3", "R4", "R5", "R6", "R7", "R8", "R9"} // R8 / R9: a page that is static except for a component shorthand tag, via Load().Render / Vue.Render // R7: Vue.Render of the page without any caller data // R5: Vue.RenderFragment of the page, R6: RenderString of a template that includes the component
 
 func c15Alphabet() []string {
 	var a []string
@@ -75,7 +75,7 @@ func init() {
 
 func (p *c15) ID() string { return "C15" }
 func (p *c15) Rule() string {
-	return "histories over a 34-symbol alphabet {edit page/component/layout x mtime policy (advance by a second, advance by a millisecond, equal, backwards, zero), front-matter-only and body-only edits, delete/recreate page/component/layout, create/delete a layout next to the page that shadows layouts/lay.vuego, delete/recreate the default layouts/base.vuego, make page/component invalid (bad YAML), render the page via Load().Render / RenderFile / Vue.Render (with and without caller data; the page reads a variable before a top-level <template> assigns it) / Vue.RenderFragment, render a second page that names no layout, render a string template that includes the component} on a page with front-matter + include + layout + a named slot template that the layout consumes; exhaustive for length <=3 (quick) / <=4 (thorough) each followed by eight renders, plus seeded histories of length 6-20; after every render step the long-lived engine's (bytes, error-ness) is compared with a fresh engine; cache hit/miss/store hook counts prove which comparisons were answered from the cache; non-trivial = history containing at least one edit followed by a render; distinct by the op list"
+	return "histories over a 38-symbol alphabet {edit page/component/layout x mtime policy (advance by a second, advance by a millisecond, equal, backwards, zero), front-matter-only and body-only edits, delete/recreate page/component/layout, create/delete a layout next to the page that shadows layouts/lay.vuego, delete/recreate the default layouts/base.vuego, make page/component invalid (bad YAML), render the page via Load().Render / RenderFile / Vue.Render (with and without caller data; the page reads a variable before a top-level <template> assigns it) / Vue.RenderFragment, render a second page that names no layout, render a string template that includes the component} on a page with front-matter + include + layout + a named slot template that the layout consumes; exhaustive for length <=3 (quick) / <=4 (thorough) each followed by eight renders, plus seeded histories of length 6-20; after every render step the long-lived engine's (bytes, error-ness) is compared with a fresh engine; cache hit/miss/store hook counts prove which comparisons were answered from the cache; non-trivial = history containing at least one edit followed by a render; distinct by the op list"
 }
 
 func (p *c15) exh(ctx core.Ctx) int {
@@ -105,7 +105,7 @@ func (p *c15) Gen(ctx core.Ctx, i int) any {
 			ops[k] = p.alpha[i%n]
 			i /= n
 		}
-		return c15Case{Ops: append(ops, "R7", "R1", "R5", "R2", "R6", "R3", "R7", "R4")}
+		return c15Case{Ops: append(ops, "R7", "R1", "R5", "R2", "R9", "R6", "R3", "R8", "R7", "R4")}
 	}
 	r := core.NewRNG(ctx.Seed, 0xC15, uint64(i))
 	var ops []string
@@ -116,7 +116,7 @@ func (p *c15) Gen(ctx core.Ctx, i int) any {
 			ops = append(ops, core.Pick(r, p.alpha))
 		}
 	}
-	return c15Case{Ops: append(ops, "R6", "R7", "R3", "R5", "R1", "R4", "R7", "R2")}
+	return c15Case{Ops: append(ops, "R6", "R7", "R3", "R9", "R5", "R1", "R8", "R4", "R7", "R2")}
 }
 
 func (p *c15) Decode(raw json.RawMessage) (any, error) { return core.JSONDecode[c15Case](raw) }
@@ -191,6 +191,9 @@ const (
 	// the default layout and a second page that names no layout
 	c15Base  = "layouts/base.vuego"
 	c15Page2 = "q.vuego"
+	// a page without anything dynamic in it except a component shorthand tag, and that component
+	c15Static = "s.vuego"
+	c15Note   = "components/SiteNote.vuego"
 )
 
 func c15Content(file string, fv, v int, valid bool) string {
@@ -211,6 +214,10 @@ func c15Content(file string, fv, v int, valid bool) string {
 		return fmt.Sprintf("<html><body data-l=\"L%d\" class=\"base\"><div v-html=\"content\"></div></body></html>", v)
 	case c15Page2:
 		return fmt.Sprintf("<main data-p=\"P%d\">q <template include=\"c.vuego\"></template></main>", v)
+	case c15Static:
+		return fmt.Sprintf("<main data-p=\"P%d\">opening hours <site-note kind=\"info\"></site-note></main>", v)
+	case c15Note:
+		return fmt.Sprintf("<aside data-c=\"C%d\">note</aside>", v)
 	default:
 		return fmt.Sprintf("---\nlfm: LF%d\n---\n<html><body data-l=\"L%d\">{{ lfm }} {{ fm }}<aside><slot name=\"side\">ns</slot></aside><div v-html=\"content\"></div></body></html>", fv, v)
 	}
@@ -218,7 +225,7 @@ func c15Content(file string, fv, v int, valid bool) string {
 
 func newC15World() *c15World {
 	w := &c15World{fs: fstest.MapFS{}, mtime: map[string]time.Time{}, hist: map[string][]c15Version{}, floor: map[string]int{}}
-	for _, f := range []string{c15Page, c15Comp, c15Lay, c15Page2, c15Base} {
+	for _, f := range []string{c15Page, c15Comp, c15Lay, c15Page2, c15Base, c15Static, c15Note} {
 		w.write(f, true, "adv")
 	}
 	return w
@@ -294,7 +301,9 @@ type c15Engines struct {
 }
 
 func c15New(fsys fstest.MapFS) c15Engines {
-	return c15Engines{base: vuego.NewFS(fsys), vue: vuego.NewVue(fsys)}
+	vue := vuego.NewVue(fsys)
+	vue.RegisterComponent("site-note", c15Note)
+	return c15Engines{base: vuego.NewFS(fsys, vuego.WithComponents()), vue: vue}
 }
 
 func (e c15Engines) render(kind string) (string, error) {
@@ -313,6 +322,10 @@ func (e c15Engines) render(kind string) (string, error) {
 		err = e.vue.Render(&b, c15Page, nil)
 	case "R5":
 		err = e.vue.RenderFragment(&b, c15Page, map[string]any{"x": 1})
+	case "R8":
+		err = e.base.Load(c15Static).Render(bg, &b)
+	case "R9":
+		err = e.vue.Render(&b, c15Static, nil)
 	case "R6":
 		err = e.base.New().Fill(map[string]any{"x": 1}).RenderString(bg, &b, `<section data-s="str"><template include="c.vuego"></template></section>`)
 	}
@@ -359,23 +372,31 @@ func (p *c15) Exec(ctx core.Ctx, cc any) core.Obs {
 			} else {
 				w.write(c15Page, true, "eq")
 			}
+		case "EN":
+			w.write(c15Note, true, "adv")
+		case "ES":
+			w.write(c15Static, true, "adv")
 		case "IP":
 			w.write(c15Page, false, "adv")
 		case "IC":
 			w.write(c15Comp, false, "adv")
-		case "R1", "R2", "R3", "R4", "R5", "R6", "R7":
+		case "R1", "R2", "R3", "R4", "R5", "R6", "R7", "R8", "R9":
 			w.engine = "template"
-			if kind == "R3" || kind == "R5" || kind == "R7" {
+			if kind == "R3" || kind == "R5" || kind == "R7" || kind == "R9" {
 				w.engine = "vue"
 			}
 			hitsBefore := c15Hits.Load()
 			out, err := long.render(kind)
-			if err != nil {
+			if err != nil && c15Hits.Load() == hitsBefore {
 				// the long-lived engine has just failed on the file this entry
-				// point loads first, if that file is missing or invalid now
+				// point loads first, if that file is missing or invalid now. (A
+				// render that answered from the cache has not looked at the file
+				// again: it failed on something else, an include for example.)
 				switch kind {
 				case "R4":
 					w.failedLoad(c15Page2)
+				case "R8", "R9":
+					w.failedLoad(c15Static)
 				case "R6":
 				default:
 					w.failedLoad(c15Page)
@@ -418,7 +439,7 @@ func (p *c15) Exec(ctx core.Ctx, cc any) core.Obs {
 	o.Count("cache_hits", c15Hits.Load()-h0)
 	o.Count("cache_misses", c15Misses.Load()-m0)
 	o.Count("cache_stores", c15Stores.Load()-s0)
-	if len(c.Ops) == 9 {
+	if len(c.Ops) == 11 {
 		o.Sample = map[string]any{"ops": c.Ops}
 	}
 	return o
@@ -430,7 +451,7 @@ func (p *c15) Exec(ctx core.Ctx, cc any) core.Obs {
 // error-ness differs some combination of acceptable versions must reproduce it
 // on a fresh engine.
 func (p *c15) matchesAlternative(w *c15World, kind, out string, err error, o *core.Obs) bool {
-	files := []string{c15Page, c15Comp, c15Lay, c15Shadow, c15Base, c15Page2}
+	files := []string{c15Page, c15Comp, c15Lay, c15Shadow, c15Base, c15Page2, c15Static, c15Note}
 	total := 1
 	okVersions := map[int]bool{}
 	for _, f := range files {
